@@ -1,4 +1,118 @@
-(* PC07.v — placeholder while the proofs are being built *)
-From SV Require Import Sampling.
-Theorem C07_placeholder : True. Proof. exact I. Qed.
-Print Assumptions C07_placeholder.
+(* PC07.v — property C07: consistent sampling gives every contest the first cards of its own random order.
+   Only statements; proofs are in Sampling_proofs.v; the model (Sampling.v) is tied to shangrla/core/Audit.py by the
+   correspondence run of harness/c07.py.
+
+   Vocabulary (definitions in Sampling_proofs.v, all computable):
+     order cards               the (position, card) pairs sorted by sample number (= the model's sorted_cards; clause (a)
+                               of C07_selection pins it down: a permutation of the positions, sorted; strictly when the
+                               numbers are distinct, which makes it unique)
+     first_cards cards c n     positions of the first n cards listing contest c, in that order
+     n_listing cards c         number of cards listing c
+     sizes_available cards ks  every contest's sample_size <= number of cards listing it
+     skel cd                   (sample number, contest ids listed): all that may influence the selection
+   A contest is (k_id, k_size = sample_size, k_thr = sample_threshold); a card is (c_num, c_votes : contest id -> payload,
+   c_extra : payload); payloads (vote dicts, id, phantom flag, ...) are an abstract type. *)
+From SV Require Import Sampling Sampling_proofs.
+From Coq Require Import Permutation Sorted.
+Open Scope Z_scope.
+
+(* ---- a concrete input used by the non-vacuity examples: six cards, two audited contests (1 and 2), one card listing
+   only an unaudited contest (9), sample numbers not in list order *)
+Definition ex_cards : list (card nat) :=
+  [ mkcard 30 [(1, 7%nat)] 0%nat;  mkcard 50 [(2, 0%nat)] 1%nat;  mkcard 10 [(9, 3%nat)] 2%nat;
+    mkcard 20 [(2, 1%nat); (1, 0%nat)] 3%nat;  mkcard 40 [(2, 5%nat)] 4%nat;  mkcard 60 [(1, 1%nat)] 5%nat ].
+Definition ex_ks : list contest := [ mkcon 1 2 None; mkcon 2 2 None ].
+Lemma ex_available : sizes_available ex_cards ex_ks.
+Proof. intros k [<-|[<-|[]]]; vm_compute; lia. Qed.
+Lemma ex_distinct : NoDup (map c_num ex_cards).
+Proof. repeat constructor; simpl; intuition discriminate. Qed.
+
+(* The selected cards are exactly the union over contests of that contest's first n_c cards in sample-number order,
+   reported without repetition in sample-number order.  (No distinctness hypothesis is needed for (b), (c1), (c2), (d):
+   with tied numbers `order` is Python's stable sort.) *)
+Theorem C07_selection : forall (V : Type) (cards : list (card V)) (ks : list contest),
+  sizes_available cards ks ->
+  (* (a) what "sample-number order" is *)
+  (Permutation (map fst (order cards)) (seq 0 (length cards)) /\
+   (forall i cd, In (i, cd) (order cards) -> nth_error cards i = Some cd) /\
+   StronglySorted (fun a b => c_num (snd a) <= c_num (snd b)) (order cards) /\
+   (NoDup (map c_num cards) -> StronglySorted (fun a b => c_num (snd a) < c_num (snd b)) (order cards))) /\
+  (* (b) the fresh draw returns, in that order, the positions that are among some contest's first n_c cards *)
+  fst (consistent_sampling cards ks None) =
+    Ok (filter (fun i => existsb (fun k => memn i (first_cards cards (k_id k) (k_size k))) ks) (map fst (order cards))) /\
+  (* (c) no repetition; exactly the union; increasing sample numbers *)
+  (forall sel, fst (consistent_sampling cards ks None) = Ok sel ->
+     NoDup sel /\
+     (forall i, In i sel <-> (i < length cards)%nat /\ exists k, In k ks /\ In i (first_cards cards (k_id k) (k_size k))) /\
+     (forall dflt, NoDup (map c_num cards) ->
+        StronglySorted (fun i j => c_num (nth i cards dflt) < c_num (nth j cards dflt)) sel)) /\
+  (* (d) each contest's part has exactly n_c cards *)
+  (forall k, In k ks -> length (first_cards cards (k_id k) (k_size k)) = k_size k).
+Proof. exact (@C07_selection_stmt). Qed.
+Print Assumptions C07_selection.
+
+Example C07_selection_nonvacuous :
+  sizes_available ex_cards ex_ks /\
+  fst (consistent_sampling ex_cards ex_ks None) = Ok [3; 0; 4]%nat /\
+  first_cards ex_cards 1 2 = [3; 0]%nat /\ first_cards ex_cards 2 2 = [3; 4]%nat.
+Proof. split; [exact ex_available|]. vm_compute. auto. Qed.
+
+(* Each contest's threshold is the sample number of its n_c-th card (n_c >= 1), and the data later used for that contest's
+   assertions (mvrs_to_data on the round's sample, card-comparison or ONEAudit with use_style) are exactly those n_c cards
+   in that order — for a fresh draw (prev = None) and for any continuation list, whatever other cards are in the sample,
+   whatever the manual records `mvr`, whatever the assorter `f`. *)
+Theorem C07_threshold : forall (V M D : Type) (f : M -> card V -> D) (g : M -> D) (mvr : nat -> M) (dflt : card V)
+    (cards : list (card V)) (ks : list contest) (prev : option (list nat)) (j : nat) (k : contest) (ty : atype),
+  NoDup (map c_num cards) -> sizes_available cards ks ->
+  nth_error ks j = Some k -> (1 <= k_size k)%nat -> ty = Comparison \/ ty = OneAudit ->
+  let r := consistent_sampling cards ks prev in
+  exists sel k' i,
+    fst r = Ok sel /\ nth_error (snd r) j = Some k' /\
+    k_id k' = k_id k /\ k_size k' = k_size k /\
+    nth_error (first_cards cards (k_id k) (k_size k)) (k_size k - 1) = Some i /\
+    k_thr k' = Some (c_num (nth i cards dflt)) /\
+    round_data f g mvr dflt cards sel ty true k' =
+      Ok (map (fun i => f (mvr i) (nth i cards dflt)) (first_cards cards (k_id k) (k_size k))) /\
+    length (first_cards cards (k_id k) (k_size k)) = k_size k.
+Proof. exact (@C07_threshold_stmt). Qed.
+Print Assumptions C07_threshold.
+
+Example C07_threshold_nonvacuous :
+  NoDup (map c_num ex_cards) /\ sizes_available ex_cards ex_ks /\ nth_error ex_ks 0 = Some (mkcon 1 2 None) /\
+  map k_thr (snd (consistent_sampling ex_cards ex_ks None)) = [Some 30; Some 40] /\
+  (* contest 1 sees cards 3 and 0 although card 4 (number 40 > 30) is also in the sample *)
+  round_data (fun (m : nat) (c : card nat) => (m, c_num c)) (fun m => (m, 0)) (fun i => i) (mkcard 0 [] 0%nat)
+             ex_cards [3; 0; 4]%nat Comparison true (mkcon 1 2 (Some 30)) = Ok [(3%nat, 20); (0%nat, 30)].
+Proof. split; [exact ex_distinct|]. split; [exact ex_available|]. vm_compute. auto. Qed.
+
+(* The selection (indices and thresholds) depends on the records only through their sample numbers and the contests each
+   lists: two card lists with the same skeletons, of possibly different payload types, give the same result. *)
+Theorem C07_votes_irrelevant : forall (V W : Type) (cards1 : list (card V)) (cards2 : list (card W))
+    (ks : list contest) (prev : option (list nat)),
+  map skel cards1 = map skel cards2 ->
+  consistent_sampling cards1 ks prev = consistent_sampling cards2 ks prev.
+Proof. exact (@votes_irrelevant). Qed.
+Print Assumptions C07_votes_irrelevant.
+
+Example C07_votes_irrelevant_nonvacuous :
+  let other : list (card bool) :=
+    [ mkcard 30 [(1, true)] false;  mkcard 50 [(2, false)] true;  mkcard 10 [(9, true)] true;
+      mkcard 20 [(2, false); (1, false)] false;  mkcard 40 [(2, true)] false;  mkcard 60 [(1, false)] true ] in
+  map skel ex_cards = map skel other /\ fst (consistent_sampling other ex_ks None) = Ok [3; 0; 4]%nat.
+Proof. vm_compute. auto. Qed.
+
+(* Sample numbers are a function of the generator stream and a card's position only: card i gets draw k+i (k = the
+   generator's counter on entry), whatever the records contain; nothing else in the records changes. *)
+Theorem C07_sample_nums : forall (V : Type) (rnd : nat -> Z) (k : nat) (cards : list (card V)),
+  let r := assign_sample_nums rnd k cards in
+  (forall i d, (i < length cards)%nat -> c_num (nth i (fst r) d) = rnd (k + i)%nat) /\
+  map c_votes (fst r) = map c_votes cards /\ map c_extra (fst r) = map c_extra cards /\
+  snd r = (k + length cards)%nat /\
+  (forall (W : Type) (cards' : list (card W)), length cards' = length cards ->
+     map c_num (fst (assign_sample_nums rnd k cards')) = map c_num (fst r)).
+Proof. exact C07_sample_nums_stmt. Qed.
+Print Assumptions C07_sample_nums.
+
+Example C07_sample_nums_nonvacuous :
+  map c_num (fst (assign_sample_nums (fun i => Z.of_nat (i * i + 7)) 2 ex_cards)) = [11; 16; 23; 32; 43; 56].
+Proof. vm_compute. reflexivity. Qed.
